@@ -88,6 +88,11 @@ fn check_matop(case: &MatCase, ctx: &mut Ctx) -> Result<(), Fail> {
                     (d, g) => ensure!(outcome_class(d) == outcome_class(g), format!("{}/outcome-differs-from-dense", tag), "dense: {:?}, {}: {:?}", d, name, g),
                 }
             }
+            Op::Argmax => {
+                compare(&tag, got, &exp)?;
+                // ties: every backend must pick the same column as the dense matrix
+                ensure!(*got == dense, format!("{}/differs-from-dense", tag), "argmax {:?} on {}, {:?} on the dense matrix (rows {:?})", got, name, dense, a.rows());
+            }
             _ => {
                 compare(&tag, got, &exp)?;
                 // where the contract leaves the outcome open, the backends must at least agree with each other
